@@ -215,20 +215,49 @@ Lemma get_docformat_applicable c o : get_docformat c o = applicable_format c o.
 Proof. reflexivity. Qed.
 
 (* the effective parser raises exactly when the spec says the pipeline gives up *)
+Lemma base_parser_known O f t :
+  fmt_known f = true -> f <> F_PLAINTEXT ->
+  base_parser O f t = match parser O f t with
+                      | PR_ok p errs => PRok (PMark p) (map EParser errs)
+                      | PR_parse_error errs => PRpe (map EParser errs)
+                      | PR_exception errs => PRexc (map EParser errs)
+                      end.
+Proof.
+  intros K P. unfold base_parser. rewrite K.
+  destruct (N.eqb_spec f F_PLAINTEXT); [contradiction|reflexivity].
+Qed.
+
+Lemma effective_parser_off O c f t :
+  processtypes_on c && negb (skip_processtypes f) = false -> effective_parser O c f t = base_parser O f t.
+Proof. intros H. unfold effective_parser. rewrite H. reflexivity. Qed.
+
+Lemma effective_parser_on O c f t :
+  processtypes_on c && negb (skip_processtypes f) = true ->
+  effective_parser O c f t = processtypes_wrap O (base_parser O f) t.
+Proof. intros H. unfold effective_parser. rewrite H. reflexivity. Qed.
+
 Lemma gives_up_effective O c f t :
   gives_up O c f t ->
   exists errs, effective_parser O c f t = PRpe errs \/ effective_parser O c f t = PRexc errs.
 Proof.
-  intros H. unfold effective_parser, processtypes_wrap, base_parser.
-  assert (Hk : forall (K : fmt_known f = true) (P : f <> F_PLAINTEXT),
-             fmt_known f && negb (f =? F_PLAINTEXT) = true).
-  { intros K P. rewrite K. destruct (N.eqb_spec f F_PLAINTEXT); [contradiction|reflexivity]. }
-  destruct H as [errs K P E|errs K P E|p errs w K P E Hon Hs Ew|p errs w K P E Hon Hs Ew];
-    rewrite (Hk K P), E.
-  - exists (map EParser errs). left. destruct (processtypes_on c && negb (skip_processtypes f)); reflexivity.
-  - exists (map EParser errs). right. destruct (processtypes_on c && negb (skip_processtypes f)); reflexivity.
-  - rewrite Hon, Hs. cbn [andb negb]. rewrite Ew. eexists. left. reflexivity.
-  - rewrite Hon, Hs. cbn [andb negb]. rewrite Ew. eexists. right. reflexivity.
+  intros H.
+  destruct H as [errs K P E|errs K P E|p errs w K P E Hon Hs Ew|p errs w K P E Hon Hs Ew].
+  - exists (map EParser errs). left.
+    destruct (processtypes_on c && negb (skip_processtypes f)) eqn:Hf.
+    + rewrite (effective_parser_on _ _ _ _ Hf). unfold processtypes_wrap.
+      rewrite (base_parser_known _ _ _ K P), E. reflexivity.
+    + rewrite (effective_parser_off _ _ _ _ Hf), (base_parser_known _ _ _ K P), E. reflexivity.
+  - exists (map EParser errs). right.
+    destruct (processtypes_on c && negb (skip_processtypes f)) eqn:Hf.
+    + rewrite (effective_parser_on _ _ _ _ Hf). unfold processtypes_wrap.
+      rewrite (base_parser_known _ _ _ K P), E. reflexivity.
+    + rewrite (effective_parser_off _ _ _ _ Hf), (base_parser_known _ _ _ K P), E. reflexivity.
+  - assert (Hf : processtypes_on c && negb (skip_processtypes f) = true) by (rewrite Hon, Hs; reflexivity).
+    rewrite (effective_parser_on _ _ _ _ Hf). unfold processtypes_wrap.
+    rewrite (base_parser_known _ _ _ K P), E, Ew. eexists. left. reflexivity.
+  - assert (Hf : processtypes_on c && negb (skip_processtypes f) = true) by (rewrite Hon, Hs; reflexivity).
+    rewrite (effective_parser_on _ _ _ _ Hf). unfold processtypes_wrap.
+    rewrite (base_parser_known _ _ _ K P), E, Ew. eexists. right. reflexivity.
 Qed.
 
 Lemma gives_up_outcome O c f t :
@@ -240,21 +269,29 @@ Qed.
 Lemma gives_up_errs_nonempty O c f t :
   raised_error_is_recorded O -> gives_up O c f t -> snd (parse_outcome O c f t) <> [].
 Proof.
-  intros (Cp & Ct) H. unfold parse_outcome, effective_parser, processtypes_wrap, base_parser.
-  assert (Hk : forall (K : fmt_known f = true) (P : f <> F_PLAINTEXT),
-             fmt_known f && negb (f =? F_PLAINTEXT) = true).
-  { intros K P. rewrite K. destruct (N.eqb_spec f F_PLAINTEXT); [contradiction|reflexivity]. }
-  destruct H as [errs K P E|errs K P E|p errs w K P E Hon Hs Ew|p errs w K P E Hon Hs Ew];
-    rewrite (Hk K P), E.
+  intros (Cp & Ct) H. unfold parse_outcome.
+  destruct H as [errs K P E|errs K P E|p errs w K P E Hon Hs Ew|p errs w K P E Hon Hs Ew].
   - pose proof (Cp _ _ _ E) as Hne.
-    destruct (processtypes_on c && negb (skip_processtypes f)); cbn [snd];
-      destruct errs; [contradiction|discriminate|contradiction|discriminate].
-  - destruct (processtypes_on c && negb (skip_processtypes f)); cbn [snd];
-      intros Hx; apply app_eq_nil in Hx; destruct Hx as [_ Hx]; discriminate.
-  - rewrite Hon, Hs. cbn [andb negb]. rewrite Ew. cbn [snd]. pose proof (Ct _ _ Ew) as Hne.
-    intros Hx. apply app_eq_nil in Hx. destruct Hx as [_ Hx]. destruct w; [contradiction|discriminate].
-  - rewrite Hon, Hs. cbn [andb negb]. rewrite Ew. cbn [snd].
-    intros Hx. apply app_eq_nil in Hx. destruct Hx as [_ Hx]. discriminate.
+    assert (Hx : effective_parser O c f t = PRpe (map EParser errs)).
+    { destruct (processtypes_on c && negb (skip_processtypes f)) eqn:Hf.
+      + rewrite (effective_parser_on _ _ _ _ Hf). unfold processtypes_wrap.
+        rewrite (base_parser_known _ _ _ K P), E. reflexivity.
+      + rewrite (effective_parser_off _ _ _ _ Hf), (base_parser_known _ _ _ K P), E. reflexivity. }
+    rewrite Hx. cbn [snd]. destruct errs; [contradiction|discriminate].
+  - assert (Hx : effective_parser O c f t = PRexc (map EParser errs)).
+    { destruct (processtypes_on c && negb (skip_processtypes f)) eqn:Hf.
+      + rewrite (effective_parser_on _ _ _ _ Hf). unfold processtypes_wrap.
+        rewrite (base_parser_known _ _ _ K P), E. reflexivity.
+      + rewrite (effective_parser_off _ _ _ _ Hf), (base_parser_known _ _ _ K P), E. reflexivity. }
+    rewrite Hx. cbn [snd]. intros Hy. apply app_eq_nil in Hy. destruct Hy as [_ Hy]. discriminate.
+  - assert (Hf : processtypes_on c && negb (skip_processtypes f) = true) by (rewrite Hon, Hs; reflexivity).
+    rewrite (effective_parser_on _ _ _ _ Hf). unfold processtypes_wrap.
+    rewrite (base_parser_known _ _ _ K P), E, Ew. cbn [snd]. pose proof (Ct _ _ Ew) as Hne.
+    intros Hy. apply app_eq_nil in Hy. destruct Hy as [_ Hy]. destruct w; [contradiction|discriminate].
+  - assert (Hf : processtypes_on c && negb (skip_processtypes f) = true) by (rewrite Hon, Hs; reflexivity).
+    rewrite (effective_parser_on _ _ _ _ Hf). unfold processtypes_wrap.
+    rewrite (base_parser_known _ _ _ K P), E, Ew. cbn [snd].
+    intros Hy. apply app_eq_nil in Hy. destruct Hy as [_ Hy]. discriminate.
 Qed.
 
 (* a parser exception (not ParseError) is always reported, contract or not *)
@@ -282,9 +319,8 @@ Proof.
   unfold ensure_parsed_docstring, ensure_spec, get_docstring.
   destruct (docstring c o) as [[|a t]|] eqn:Hd; destruct (pdoc st o) as [pd|] eqn:Hp; cbn [fst snd];
     try rewrite Hp; try reflexivity.
-  - destruct (parent c o); rewrite Hp; reflexivity.
-  - destruct (parse_docstring O c st o (a :: t) o None SEC_DOCSTRING) as [pd st'] eqn:E. cbn [fst snd].
-    cbn [set_pdoc pdoc]. rewrite upd_same. reflexivity.
+  destruct (parse_docstring O c st o (a :: t) o None SEC_DOCSTRING) as [pd st'] eqn:E. cbn [fst snd].
+  cbn [set_pdoc pdoc]. rewrite upd_same. reflexivity.
 Qed.
 
 (* the state after ensure, when a parse happens *)
@@ -334,7 +370,7 @@ Proof.
     try (split; [apply touches_only_refl|auto]; fail).
   - rewrite parse_docstring_eq. cbn [fst snd]. split; [|right; reflexivity].
     change (touches_only o st (parsed_state O c st o (a :: t))). apply parsed_state_touches.
-  - destruct Hown as [H|H]; [contradiction|discriminate].
+  - destruct Hown as [H|H]; congruence.
 Qed.
 
 Lemma ensure_step2 O c s1 s2 o :
@@ -352,8 +388,8 @@ Qed.
 Lemma ensure_keeps_own O c st o :
   renders_own_docstring c st o -> renders_own_docstring c (snd (ensure_parsed_docstring O c st o)) o.
 Proof.
-  intros [H|H]; [left; exact H|]. rewrite ensure_eq. unfold ensure_spec. rewrite H.
-  destruct (docstring c o) as [[|a t]|] eqn:Hd; cbn [snd]; try (right; exact H); left; discriminate.
+  intros [H|H]; [left; exact H|]. rewrite ensure_eq. unfold ensure_spec, renders_own_docstring. rewrite H.
+  destruct (docstring c o) as [[|a t]|] eqn:Hd; cbn [snd]; try (right; exact H); left; congruence.
 Qed.
 
 (* ------------------------------------------------------------------ safe_to_stan *)
